@@ -82,10 +82,29 @@ theorem op_byte (n : Nat) (h : n < 64) : n.toUInt8.toNat / 64 = 0 ∧ n.toUInt8.
   have : n.toUInt8.toNat = n := by simp [Nat.toUInt8, UInt8.toNat_ofNat']; omega
   rw [this]; omega
 
-theorem fromOriginBytes_encode (f : Frm) (h : f.WF) : fromOriginBytes (encode f) [] = .ok (mkCmd f) := by
-  simp [fromOriginBytes, idx, encode_idx4, encode_idx5, bind, Except.bind, pure, Except.pure, mkCmd]
-  have := h.op_lt
-  omega
+theorem encode_idx67 (f : Frm) (p : Bytes) (hp : f.props = some p) :
+    (encode f)[6]? = some (p.length % 256).toUInt8 ∧ (encode f)[7]? = some (p.length / 256 % 256).toUInt8 := by
+  obtain ⟨a, b, c, d, h⟩ := encode_cons f
+  rw [h, hp]; simp [propHdr, le16, leN]
+
+theorem parseFrame_encode (f : Frm) (h : f.WF) : parseFrame (encode f) [] = some (mkCmd f) := by
+  unfold parseFrame
+  rw [encode_idx4, encode_idx5]
+  cases hp : f.props with
+  | none =>
+    have : hasFlag f.flag fPROP = false := by rw [h.flag_props, hp]; rfl
+    simp [this, mkCmd]
+    have := h.op_lt; omega
+  | some p =>
+    have : hasFlag f.flag fPROP = true := by rw [h.flag_props, hp]; rfl
+    have hl := h.props_len p hp
+    obtain ⟨h6, h7⟩ := encode_idx67 f p hp
+    simp only [this, if_true, h6, h7, toUInt8_toNat_mod]
+    have hlen : ¬ (p.length % 256 + 256 * (p.length / 256 % 256) + 8 > (encode f).length) := by
+      rw [encode_length]; simp [Frm.hdrLen, hp, propHdr]; omega
+    rw [if_neg hlen]
+    simp [mkCmd]
+    have := h.op_lt; omega
 
 theorem cmdOff_mkCmd (f : Frm) (h : f.WF) : cmdOff (mkCmd f) = .ok (6 + f.hdrLen) := by
   unfold cmdOff
@@ -134,13 +153,13 @@ theorem encElems_append (xs ys : List Bytes) : encElems (xs ++ ys) = encElems xs
 
 theorem encElems_nil : encElems [] = [] := rfl
 
-theorem parseElems_enc (ex : Bytes) (xs : List Bytes) (h : ElemsOK xs) (fuel : Nat)
-    (hf : (encElems xs).length ≤ fuel) : parseElems ex fuel (encElems xs) = .ok xs := by
+theorem parseElems_enc (xs : List Bytes) (h : ElemsOK xs) (fuel : Nat)
+    (hf : (encElems xs).length ≤ fuel) : parseElems fuel (encElems xs) = xs := by
   induction xs generalizing fuel with
   | nil =>
     cases fuel with
     | zero => rfl
-    | succ n => simp [parseElems, encElems_nil, pure, Except.pure]
+    | succ n => simp [parseElems, encElems_nil]
   | cons x xs ih =>
     have hx := h x (List.mem_cons_self ..)
     have hxs : ElemsOK xs := fun y hy => h y (List.mem_cons_of_mem _ hy)
@@ -155,13 +174,12 @@ theorem parseElems_enc (ex : Bytes) (xs : List Bytes) (h : ElemsOK xs) (fuel : N
         rw [take_left' _ _ 4 (le32_length _)]; exact readLE_le32 _ hx.2
       have h3 : (le32 x.length ++ (x ++ encElems xs)).drop (4 + x.length) = encElems xs := by
         rw [← List.drop_drop, drop_left' _ _ 4 (le32_length _), drop_left' _ _ _ rfl]
-      have h4 : (((le32 x.length ++ (x ++ encElems xs)) ++ ex).drop 4).take x.length = x := by
-        rw [List.append_assoc, drop_left' _ _ 4 (le32_length _), List.append_assoc, take_left' _ _ _ rfl]
+      have h4 : ((le32 x.length ++ (x ++ encElems xs)).drop 4).take x.length = x := by
+        rw [drop_left' _ _ 4 (le32_length _), take_left' _ _ _ rfl]
       unfold parseElems
       rw [if_neg h1]
       simp only [h2]
       rw [if_neg (by omega), if_neg (by rw [hlen]; omega), h3, h4, ih hxs n (by rw [hlen] at hf; omega)]
-      rfl
 
 theorem forall_uint8 (P : UInt8 → Prop) (h : ∀ n, n < 256 → P (UInt8.ofNat n)) (f : UInt8) : P f := by
   have := h f.toNat (UInt8.toNat_lt f)
